@@ -957,6 +957,16 @@ pub struct ServerPool {'''),
         }
         CONFIG.store(Arc::new(old_config));
         Ok(true)"""),
+    dict(id="c12-startup-bytes-as-latin1", prop="C12", file="src/messages.rs", expect="C12-R7",
+         what="startup strings built one byte per char again (D45 again)",
+         old="""        buf.push(String::from_utf8_lossy(&tmp).into_owned());""", new="""        buf.push(tmp.iter().map(|c| *c as char).collect::<String>());"""),
+    dict(id="c12-empty-startup-value-dropped", prop="C12", file="src/messages.rs", expect="C12-R7",
+         what="every empty string of the startup packet is dropped (D45 again)",
+         old="""        if tmp.is_empty() && buf.len() % 2 == 0 {
+            break;
+        }""", new="""        if tmp.is_empty() {
+            continue;
+        }"""),
     # ------------------------------------------------------------------ C17
     dict(id="c17-shutdown-checked-in-transaction", prop="C17", file="src/client.rs", expect="C17-R1",
          what="the transaction loop also reacts to the shutdown broadcast",
